@@ -181,6 +181,31 @@ let handle (lines : string list) : unit =
               (fun op _ _ c -> if op = "casw" && c = 2 then 1 else 0) note_of (none_enabled step (nw + 1)) trace in
           if ok then Printf.printf "F acc=%d del=%d wcur=%s rcur=%s\n" (List.length (c_acc st)) (List.length (c_del st))
               (string_of_z (c_wcur st)) (string_of_z (c_rcur st))))
+  | "abq" :: cap :: np :: rest ->
+    let np = int_of_string np and cap = int_of_string cap in
+    let ks = Array.of_list (List.map int_of_string rest) in
+    let n = Array.length ks in
+    if n <= np then print_endline "F badcase" else begin
+      Printf.printf "F init 0 cap=%d\n" cap;
+      let st0 = qinit (z_of_int cap) (nat_of_int np) (nat_of_int n)
+          (fun t -> let i = int_of_nat t in if i < n then nat_of_int ks.(i) else O) in
+      let step = qstep (nat_of_int n) in
+      let (st, ok) = accept_trace_w step st0 cell_id
+          (fun op _ b _ -> if op = "cvsig" && b >= 0 then b else 0) note_of (none_enabled step n) trace in
+      if ok then Printf.printf "F acc=%d del=%d cnt=%s put=%s take=%s\n" (List.length st.q_putl) (List.length st.q_taken)
+          (string_of_z st.q_cnt) (string_of_z st.q_put) (string_of_z st.q_take)
+    end
+  | "dbuf" :: cap :: nb :: total :: rest ->
+    let ks = Array.of_list (List.map int_of_string rest) in
+    let nw = Array.length ks in
+    Printf.printf "F init 0 cap=%s\n" cap;
+    let st0 = dinit (z_of_int (int_of_string cap)) (nb <> "0") (nat_of_int !maxtry) (nat_of_int nw)
+        (nat_of_int (int_of_string total))
+        (fun t -> let i = int_of_nat t in if i >= 1 && i <= nw then nat_of_int ks.(i - 1) else O) in
+    let (st, ok) = accept_trace_w dstep st0 cell_id
+        (fun op _ b _ -> if op = "cvsig" && b >= 0 then b else 0) note_of (none_enabled dstep (nw + 1)) trace in
+    if ok then Printf.printf "F acc=%d del=%d back=%s\n" (List.length st.d_written) (int_of_nat st.d_got)
+        (string_of_z (st.d_cnt (not st.d_front)))
   | _ -> print_endline "F badcase"
 
 let () = run_cases handle
